@@ -50,4 +50,17 @@ SimNext ==
             \/ \E i \in 0..MaxH : SLook(i)
 SimSpec == SimInit /\ [][SimNext]_<<vars, hist>>
 Emit == Len(hist) # Depth \/ PrintT(<<"@@HIST@@", ToJson(hist)>>)
+
+(* Counterexample extraction (exhaustive mode on SimSpec, configurations CE_*.cfg): the schedule that leads to a
+   state falsifying an invariant of HeaderHashesImpl is printed, to be REPLAYED ON THE REAL NODE - a model-level
+   counterexample is never a verdict by itself.  NoBad stops at the first (shortest) one; AllBad prints every
+   one within the bound Short. *)
+N(ok, name) == IF ok THEN {} ELSE {name}
+BadNames == N(AbsAnswers, "AbsAnswers") \cup N(AbsTip, "AbsTip") \cup N(AbsHeights, "AbsHeights") \cup N(AbsReset, "AbsReset")
+            \cup N(CanRestart, "CanRestart") \cup N(NoDead, "NoDead") \cup N(MemCanonical, "MemCanonical")
+            \cup N(RestartTransparent, "RestartTransparent") \cup N(DiskPages, "DiskPages")
+CE == PrintT(<<"@@CE@@", ToJson([bad |-> BadNames, hist |-> hist])>>)
+NoBad  == BadNames = {} \/ ~CE
+AllBad == BadNames = {} \/ CE
+Short  == Len(hist) <= Depth
 =============================================================================
